@@ -524,6 +524,8 @@ def run_case(case, plan, sty='dtml', cls=None, cache_key=None):
             res = ['ok', ident_result(r)]
         except (Exception, Cancelled) as e:  # noqa
             a = e.args[0] if e.args else ''
+            if isinstance(e, NameError) and isinstance(a, str) and a.startswith("name '") and a.endswith("' is not defined"):
+                a = a[6:-16]          # the machine reports the name only
             res = ['exc', type(e).__name__, a if isinstance(a, str) else repr(a)]
     finally:
         RUN.on = False
